@@ -66,6 +66,14 @@ def encList {α : Type} (e : α → String) (l : List α) : String := "[" ++ ","
 def encPair {α β : Type} (a : α → String) (b : β → String) (p : α × β) : String := "(" ++ a p.1 ++ "," ++ b p.2 ++ ")"
 def encUnit (_ : Unit) : String := "()"
 
+/-- maps keyed by an opaque type (instantiated with `Nat` by the dispatch): printed in ascending key order, which is
+    how the Rust side prints its `OrderedMap` (the generated definitions do not represent the order) -/
+def insKey {α : Type} (p : Nat × α) : List (Nat × α) → List (Nat × α)
+  | [] => [p]
+  | q :: r => if p.1 ≤ q.1 then p :: q :: r else q :: insKey p r
+def sortKey {α : Type} (l : List (Nat × α)) : List (Nat × α) := l.foldr insKey []
+def encOmap {α : Type} (e : α → String) (l : List (Nat × α)) : String := encList (encPair toString e) (sortKey l)
+
 def encM {α : Type} (e : α → String) : Rs.M α → String
   | .ok x => "ok " ++ e x
   | .error f => f.show
